@@ -201,4 +201,100 @@ theorem arc3LengthAt_circle {C e1 e2 : Vec ℝ} (hF : Frame e1 e2) {r : ℝ} (hr
   have hq : r * r * Real.cos θ / (r * r) = Real.cos θ := by field_simp
   rw [hq, clipR_cos]
 
+/-! ### round 6c: from coordinates to a frame and angles -/
+
+section basis
+variable {K : Type} [Field K] [LinearOrder K] [IsStrictOrderedRing K]
+set_option linter.unusedSectionVars false
+
+/-- `e1`, `n × e1` is a frame of the plane orthogonal to the unit vector `n`, for a unit vector `e1 ⟂ n` -/
+theorem frame_of_normal {e1 n : Vec K} (h1 : nsq e1 = 1) (hn : nsq n = 1) (hd : dot n e1 = 0) : Frame e1 (cross n e1) := by
+  refine ⟨h1, ?_, ?_⟩
+  · have h : nsq (cross n e1) = nsq n * nsq e1 - dot n e1 * dot n e1 := by simp only [nsq, dot, cross]; ring
+    rw [h, h1, hn, hd]; ring
+  · simp only [dot, cross]; ring
+
+theorem cross_e1_e2 {e1 n : Vec K} (h1 : nsq e1 = 1) (hd : dot n e1 = 0) : cross e1 (cross n e1) = n := by
+  have h : cross e1 (cross n e1) = sub (smul (nsq e1) n) (smul (dot n e1) e1) := by
+    apply Vec.ext' <;> simp only [nsq, dot, cross, sub, smul] <;> ring
+  rw [h, h1, hd]
+  apply Vec.ext' <;> simp only [sub, smul] <;> ring
+
+/-- a vector orthogonal to `n` is the combination of `e1` and `n × e1` with its own dot products as coefficients -/
+theorem decompose {e1 n : Vec K} (h1 : nsq e1 = 1) (hn : nsq n = 1) (hd : dot n e1 = 0) (v : Vec K) (hv : dot v n = 0) :
+    v = comb e1 (cross n e1) (dot v e1) (dot v (cross n e1)) := by
+  obtain ⟨w, hw⟩ : ∃ w, w = sub v (smul (dot v e1) e1) := ⟨_, rfl⟩
+  have hwe : dot w e1 = 0 := by
+    have : dot w e1 = dot v e1 - dot v e1 * nsq e1 := by rw [hw]; simp only [nsq, dot, sub, smul]; ring
+    rw [this, h1]; ring
+  have hwn : dot w n = 0 := by
+    have : dot w n = dot v n - dot v e1 * dot n e1 := by rw [hw]; simp only [dot, sub, smul]; ring
+    rw [this, hv, hd]; ring
+  have hp := perp_parallel w n e1 hwe hwn
+  have hF := frame_of_normal h1 hn hd
+  have hwd : dot w (cross n e1) = dot v (cross n e1) := by
+    rw [hw]; simp only [dot, cross, sub, smul]; ring
+  have hn2 : nsq (cross n e1) = 1 := hF.n2
+  rw [hn2, hwd] at hp
+  have kx := congrArg Vec.x hp
+  have ky := congrArg Vec.y hp
+  have kz := congrArg Vec.z hp
+  rw [hw] at kx ky kz
+  simp only [smul, sub] at kx ky kz
+  apply Vec.ext' <;> simp only [comb, add, smul] <;> linarith
+
+end basis
+
+/-- every point of the unit circle has an angle in `[0, 2π)` -/
+theorem exists_angle {x y : ℝ} (h : x * x + y * y = 1) :
+    ∃ α : ℝ, 0 ≤ α ∧ α < 2 * Real.pi ∧ Real.cos α = x ∧ Real.sin α = y := by
+  have hπ := Real.pi_pos
+  have hx1 : -1 ≤ x := by nlinarith [mul_self_nonneg y, mul_self_nonneg (x + 1)]
+  have hx2 : x ≤ 1 := by nlinarith [mul_self_nonneg y, mul_self_nonneg (x - 1)]
+  have hs : Real.sin (Real.arccos x) = |y| := by
+    rw [Real.sin_arccos, show 1 - x ^ 2 = y ^ 2 by nlinarith, Real.sqrt_sq_eq_abs]
+  by_cases hy : 0 ≤ y
+  · refine ⟨Real.arccos x, Real.arccos_nonneg x, by linarith [Real.arccos_le_pi x], Real.cos_arccos hx1 hx2, ?_⟩
+    rw [hs, abs_of_nonneg hy]
+  · have hy' : y < 0 := not_le.mp hy
+    have hxlt : x < 1 := by
+      rcases lt_or_eq_of_le hx2 with h1 | h1
+      · exact h1
+      · exfalso; rw [h1] at h; have : y * y = 0 := by linarith
+        have := mul_self_eq_zero.mp this; linarith
+    have hpos : 0 < Real.arccos x := Real.arccos_pos.mpr hxlt
+    refine ⟨2 * Real.pi - Real.arccos x, by linarith [Real.arccos_le_pi x], by linarith, ?_, ?_⟩
+    · rw [Real.cos_two_pi_sub]; exact Real.cos_arccos hx1 hx2
+    · rw [Real.sin_two_pi_sub, hs, abs_of_neg hy']; ring
+
+/-- the sign of the triangle's orientation orders the angles: for `ψ, θ ∈ [0, 2π)`,
+    `(cos ψ − 1) sin θ − sin ψ (cos θ − 1) > 0` forces `0 < ψ < θ` -/
+theorem circ_D_order {ψ θ : ℝ} (hψ0 : 0 ≤ ψ) (hψ : ψ < 2 * Real.pi) (hθ0 : 0 ≤ θ) (hθ : θ < 2 * Real.pi)
+    (hD : 0 < (Real.cos ψ - 1) * Real.sin θ - Real.sin ψ * (Real.cos θ - 1)) : 0 < ψ ∧ ψ < θ := by
+  have e := circ_D (ψ / 2) (θ / 2)
+  rw [show 2 * (ψ / 2) = ψ by ring, show 2 * (θ / 2) = θ by ring] at e
+  rw [e] at hD
+  have s1 : 0 ≤ Real.sin (ψ / 2) := Real.sin_nonneg_of_nonneg_of_le_pi (by linarith) (by linarith)
+  have s2 : 0 ≤ Real.sin (θ / 2) := Real.sin_nonneg_of_nonneg_of_le_pi (by linarith) (by linarith)
+  have s1p : 0 < Real.sin (ψ / 2) := by
+    rcases lt_or_eq_of_le s1 with h | h
+    · exact h
+    · rw [← h] at hD; simp at hD
+  have s2p : 0 < Real.sin (θ / 2) := by
+    rcases lt_or_eq_of_le s2 with h | h
+    · exact h
+    · rw [← h] at hD; simp at hD
+  have s3p : 0 < Real.sin (θ / 2 - ψ / 2) := by
+    by_contra hneg
+    have := mul_nonpos_of_nonneg_of_nonpos (mul_nonneg (mul_nonneg (by norm_num : (0:ℝ) ≤ 4) s1) s2) (not_lt.mp hneg)
+    linarith
+  constructor
+  · by_contra h0
+    have : ψ = 0 := le_antisymm (not_lt.mp h0) hψ0
+    rw [this] at s1p; simp at s1p
+  · by_contra hle
+    have hle' : θ ≤ ψ := not_lt.mp hle
+    have := Real.sin_nonpos_of_nonpos_of_neg_pi_le (x := θ / 2 - ψ / 2) (by linarith) (by linarith)
+    linarith
+
 end CBV.C08
